@@ -32,15 +32,18 @@ LEVEL = "exploration"
 USES_JAX = True
 CLEAR_EVERY = 200  # a handful of jitted programs only
 RULE = (
-    "single updates: full product of (table, s, a, s', a', r, terminated, gamma, lr) per learner, all episodes "
-    "(obs,act)^L for the Monte-Carlo update, all (pair,successor)^L sequences for the Dyna-Q model; one evaluation "
-    "= one returned table compared entry by entry with the float64 reference; non-trivial = the reference delta "
-    "of the visited entry is non-zero (so 'exactly one entry changes' is not vacuous) resp. the episode / "
-    "sequence revisits an entry; distinct = distinct argument tuple. histories: every answer sequence "
-    "(successor in {0,1}) x (continue/Terminate/trUncate) up to the horizon (quick: at most 2 episode ends) is "
-    "one run of the public train_* function, diffed against the run of its prefix; one evaluation = one step's "
-    "table difference judged by the reference; non-trivial = not the first step and the reference change is "
-    "non-zero; distinct = distinct (learner configuration, answer sequence)"
+    "single updates: full product of (table, s, a, s', a', r, terminated, gamma, lr) per learner (Q-learning: a' "
+    "ranges over the greedy actions at s' only; double-Q / Dyna-Q have no a'), all episodes (obs,act)^L for the "
+    "Monte-Carlo update, all (pair,successor)^L sequences for the Dyna-Q model, a product of models x buffers x "
+    "steps x keys for Dyna-Q planning; one evaluation = one returned table compared entry by entry with the "
+    "float64 reference; non-trivial = the reference delta of the visited entry is non-zero (so 'exactly one entry "
+    "changes' is not vacuous) / the episode revisits an entry or continues from non-zero visit counts / one "
+    "(s,a) pair has two distinct successors / planning changed the table; distinct = distinct argument tuple. "
+    "histories: every answer sequence (successor in {0,1}) x (continue/Terminate/trUncate) up to the horizon "
+    "(quick: at most 2 episode ends) is one run of the public train_* function, diffed against the run of its "
+    "prefix; one evaluation = one step's table difference judged by the reference; non-trivial = not the first "
+    "step and the reference change is non-zero (Monte-Carlo: the step ends an episode); distinct = distinct "
+    "(learner configuration, answer sequence)"
 )
 ASSUMPTIONS = [
     "train_* with the same seed and the same scripted answers reproduces its own prefix (checked per run on the logged actions; a mismatch is reported as reduced coverage, determinism itself is C09)",
